@@ -1,4 +1,5 @@
 import PymocaVerif.Lemmas.FlattenMods
+import PymocaVerif.Lemmas.FlattenInit
 /-! The shape of a successful `flattenF`, and a small concrete library used by the `example`s of
     Props/C07 and Props/C08 to show that the theorems' hypotheses are satisfiable. -/
 namespace PymocaVerif.Flatten
@@ -10,40 +11,50 @@ instance {ε α : Type} [DecidableEq ε] [DecidableEq α] : DecidableEq (Except 
   | .error _, .ok _ => isFalse (fun h => by cases h)
 
 theorem flattenF_ok {fuel : Nat} {lib : Lib} {t : Path} {m : FlatModel} (h : flattenF fuel lib t = .ok m) :
-    ∃ r, instF fuel lib t [] [] [] = .ok r ∧ m = assemble r ∧ instTop fuel lib t = .ok r := by
+    ∃ r ri, instF fuel lib t [] [] [] = .ok r ∧ instF fuel (initView lib) t [] [] [] = .ok ri ∧
+      m = assemble r ri.2 ∧ instTop fuel lib t = .ok r ∧ instTop fuel (initView lib) t = .ok ri := by
+  have top : ∀ {l : Lib} {x : List Var × List IEq}, instTop fuel l t = .ok x → instF fuel l t [] [] [] = .ok x := by
+    intro l x hx
+    unfold instTop at hx
+    split at hx
+    · cases hx
+    · cases hx
+    · exact hx
   unfold flattenF at h
   split at h
   · cases h
   · rename_i r hr
-    cases h
-    have hr' := hr
-    unfold instTop at hr
-    split at hr
-    · cases hr
-    · cases hr
-    · exact ⟨r, hr, rfl, hr'⟩
+    split at h
+    · cases h
+    · rename_i ri hri
+      cases h
+      exact ⟨r, ri, top hr, top hri, rfl, hr, hri⟩
 
 /-! ## a small library used to show that hypotheses are satisfiable -/
 
-/-- `model Leaf parameter Real k = 1; input Real u; Real w[2]; equation w[1] = k*u; end Leaf;`
+/-- `model Leaf parameter Real k = 1; parameter Integer n = 1; input Real u; Real w[2];`
+    `  initial equation w[n] = 0; equation w[1] = k*u; for i in 1:2 loop w[i + n] = u; end for; end Leaf;`
     `model Base Leaf lb(k = 5); Real b(start = 1); equation b = lb.u; end Base;`
     `model M extends Base(b(start = 3)); Leaf l2[3]; output Real y; equation y = l2[1].u + b; end M;` -/
 def exLeaf : ClassDef := ClassDef.mk false []
   [Comp.mk "k" (.builtin "Real") ["parameter"] [] [Mod.mk [] (.num 1)],
+   Comp.mk "n" (.builtin "Integer") ["parameter"] [] [Mod.mk [] (.num 1)],
    Comp.mk "u" (.builtin "Real") ["input"] [] [],
    Comp.mk "w" (.builtin "Real") [] [2] []]
-  [(.ref [("w", [1])], .bin "*" (.ref [("k", [])]) (.ref [("u", [])]))]
+  [.eq (.ref [("w", [.lit 1])]) (.bin "*" (.ref [("k", [])]) (.ref [("u", [])])),
+   .forEq "i" 1 2 [(.ref [("w", [.add (.name "i") (.name "n")])], .ref [("u", [])])]]
+  [.eq (.ref [("w", [.name "n"])]) (.num 0)]
 def exBase : ClassDef := ClassDef.mk false []
   [Comp.mk "lb" (.cls ["Leaf"]) [] [] [Mod.mk ["k"] (.num 5)],
    Comp.mk "b" (.builtin "Real") [] [] [Mod.mk ["start"] (.num 1)]]
-  [(.ref [("b", [])], .ref [("lb", []), ("u", [])])]
+  [.eq (.ref [("b", [])]) (.ref [("lb", []), ("u", [])])] []
 def exM : ClassDef := ClassDef.mk false [(.cls ["Base"], [Mod.mk ["b", "start"] (.num 3)])]
   [Comp.mk "l2" (.cls ["Leaf"]) [] [3] [],
    Comp.mk "y" (.builtin "Real") ["output"] [] []]
-  [(.ref [("y", [])], .bin "+" (.ref [("l2", [1]), ("u", [])]) (.ref [("b", [])]))]
+  [.eq (.ref [("y", [])]) (.bin "+" (.ref [("l2", [.lit 1]), ("u", [])]) (.ref [("b", [])]))] []
 def exLib : Lib := [(["Leaf"], exLeaf), (["Base"], exBase), (["M"], exM)]
 
-def exFlat : FlatModel := (match flattenF 6 exLib ["M"] with | .ok m => m | .error _ => ⟨[], []⟩)
+def exFlat : FlatModel := (match flattenF 6 exLib ["M"] with | .ok m => m | .error _ => ⟨[], [], []⟩)
 
 theorem exFlat_ok : flattenF 6 exLib ["M"] = .ok exFlat := by
   have h : (flattenF 6 exLib ["M"]).toOption.isSome = true := by decide +kernel
@@ -53,12 +64,10 @@ theorem exFlat_ok : flattenF 6 exLib ["M"] = .ok exFlat := by
   · rename_i e he; rw [he] at h; simp [Except.toOption] at h
 
 theorem exFlat_paths : exFlat.vars.map (·.path) =
-    [["lb", "k"], ["lb", "u"], ["lb", "w"], ["b"], ["l2", "k"], ["l2", "u"], ["l2", "w"], ["y"]] := by
+    [["lb", "k"], ["lb", "n"], ["lb", "u"], ["lb", "w"], ["b"], ["l2", "k"], ["l2", "n"], ["l2", "u"], ["l2", "w"],
+     ["y"]] := by
   decide +kernel
 
 
-theorem exInst_ok : ∃ r, instF 6 exLib ["M"] [] [] [] = .ok r ∧ exFlat = assemble r := by
-  obtain ⟨r, hr, hm, _⟩ := flattenF_ok exFlat_ok
-  exact ⟨r, hr, hm⟩
 
 end PymocaVerif.Flatten
